@@ -398,8 +398,8 @@ func TestC11(t *testing.T) {
 		}
 		return c
 	}
-	core.Rapid(r, "table", r.Pick(20000, 400000), genForestStates, wrap)
-	core.Rapid(r, "files", r.Pick(600, 20000), genForestStates, real)
+	core.Rapid(r, "table", r.Pick(20000, 3000000), genForestStates, wrap)
+	core.Rapid(r, "files", r.Pick(600, 80000), genForestStates, real)
 }
 
 // checkC11Real materialises the states as real artifact files with explicit
